@@ -16,6 +16,7 @@ pub mod c19;
 pub mod c08;
 pub mod c09;
 pub mod c09b;
+pub mod c10;
 pub mod c11;
 pub mod c11_emit;
 pub mod c12;
@@ -27,7 +28,7 @@ pub mod c16;
 use crate::engine::{Ctx, Tier};
 use serde_json::Value;
 
-pub const ALL: &[&str] = &["C01", "C02", "C03", "C04", "C05", "C06", "C07", "C08", "C09", "C11", "C12", "C13", "C14", "C15", "C16", "C17", "C18", "C19"];
+pub const ALL: &[&str] = &["C01", "C02", "C03", "C04", "C05", "C06", "C07", "C08", "C09", "C10", "C11", "C12", "C13", "C14", "C15", "C16", "C17", "C18", "C19"];
 
 pub fn run(id: &str, tier: Tier, seed: u64) -> Option<i32> {
     macro_rules! go {
@@ -47,6 +48,7 @@ pub fn run(id: &str, tier: Tier, seed: u64) -> Option<i32> {
         "C07" => go!(c07, "C07"),
         "C08" => go!(c08, "C08"),
         "C09" => go!(c09, "C09"),
+        "C10" => go!(c10, "C10"),
         "C11" => go!(c11, "C11"),
         "C12" => go!(c12, "C12"),
         "C13" => go!(c13, "C13"),
@@ -71,6 +73,7 @@ pub fn replay(id: &str, v: &Value) -> Option<i32> {
         "C07" => c07::replay(v),
         "C08" => c08::replay(v),
         "C09" => c09::replay(v),
+        "C10" => c10::replay(v),
         "C11" => c11::replay(v),
         "C12" => c12::replay(v),
         "C13" => c13::replay(v),
